@@ -146,7 +146,12 @@ class EventStreamPlayer(stm.Routine):
     def _play_and_delta(self, outevent):  # Was Event.playAndDelta.
         if not (self._is_muted or evt.is_rest(outevent)):
             outevent.play()
-        return outevent('delta')
+        delta = outevent('delta')
+        if isinstance(delta, evt.Rest):
+            # Clocks only reschedule int or float, a Rest as
+            # duration must wait its time as any other value.
+            delta = float(delta)
+        return delta
 
     def play(self, clock=None, quant=None, reset=False):
         if reset:
